@@ -6,7 +6,7 @@
 """
 import json, os, sys
 from .unit import *
-from .overlay import compile_overlay, save_ops, OverlayError
+from .overlay import compile_overlay, save_ops, load_ops, OverlayError
 
 
 def main():
@@ -21,22 +21,25 @@ def main():
         raw, ctx = build_raw(u)
         ann = open(os.path.join(WORK, name + '.annot.rs')).read()
         try:
-            ops = compile_overlay(raw, ann, allow_subst='--subst' in sys.argv)
+            ops = compile_overlay(split_shim(raw)[1], split_shim(ann)[1], allow_subst='--subst' in sys.argv)
         except OverlayError as e:
             print('OVERLAY ERROR\n%s' % e)
             sys.exit(1)
         # split ops over overlay files by path prefix (unit module may define OVERLAY_SPLIT)
         split = getattr(u, 'OVERLAY_SPLIT', None)
-        if split:
-            buckets = {}
-            for op in ops:
-                buckets.setdefault(split(op), []).append(op)
-            for k, v in buckets.items():
-                save_ops(os.path.join(ROOT, 'overlays', k + '.json'), v)
-                print('overlay %s: %d ops' % (k, len(v)))
-        else:
-            save_ops(os.path.join(ROOT, 'overlays', u.NAME + '.json'), ops)
-            print('overlay %s: %d ops' % (u.NAME, len(ops)))
+        own = getattr(u, 'OWN_OVERLAYS', [u.NAME])
+        buckets = {}
+        for op in ops:
+            buckets.setdefault(split(op) if split else u.NAME, []).append(op)
+        for k, v in buckets.items():
+            f = os.path.join(ROOT, 'overlays', k + '.json')
+            if k in own:
+                save_ops(f, v)
+                print('overlay %s: %d ops (saved)' % (k, len(v)))
+            else:
+                cur = load_ops(f) if os.path.exists(f) else []
+                same = json.dumps(cur, sort_keys=True) == json.dumps(v, sort_keys=True)
+                print('overlay %s: %d ops (shared, not saved; %s)' % (k, len(v), 'identical to the committed one' if same else 'DIFFERS from the committed one - refresh the annot from gen'))
     elif cmd in ('gen', 'verus'):
         g = generate(u)
         path = os.path.join(WORK, name + '_gen.rs')
